@@ -47,11 +47,12 @@ var entryTokens = []string{
 	"a", "b", "c", "ab", "|", "(", "(?:", ")", "[", "]", "a-c", "*", "+", "?", "{2}", ".", "^", "$",
 	`\.`, `\\`, `\x5c`, `"`, `\"`, `\s`, `\t\n\f\r `, " ", "!-~", `\x00`, "é", `\b`,
 	`\(?i:`, // literal text that looks like an engine flag group
+	"-~",    // after the Perl white-space class: `[\t\n\f\r -~]`, the blank starts a range
 	"%",     // a formatting verb for whoever prints the result with a printf-style function
 }
 
 // additional tokens for C02 (pasting safety)
-var entryTokensC02 = []string{"\t", "\x01", "\x7f", `\x22`, `\Q"\E`, `\x{2019}`, `\x{fffd}`, `\(?-s:`, `\)`, `(?s:.)`, `(?i:a)`}
+var entryTokensC02 = []string{"\t", "\x01", "\x7f", `\x22`, `\Q"\E`, `\x{2019}`, `\x{fffd}`, `\(?-s:`, `\)`, `(?s:.)`, `(?i:a)`, "(?m)"}
 
 var inlineFlag = regexp.MustCompile(`\(\?[a-zA-Z-]+[:)]`)
 
